@@ -90,8 +90,23 @@ Definition c04_case (body outs : sx) : sx :=
   end.
 End Dec.
 
+(* (4 2 body outputs): FLOAT ORACLE.  The same program language with numbers (m e) = m * 2^e taken
+   as f64; the harness runs it through Record and Trace in every ownership form and reports three
+   flags checked on the Rust side only (all forms agree bit for bit; forward derivative = reverse
+   derivative for every variable wherever every local partial derivative is finite; numbers = the
+   plain f64 computation).  No float is ever compared with the model: the model validates the case
+   (any pair of integers decodes as a number) and answers the expected flags (1 1 1). *)
+Definition float_flags : sx := SL [SZ 1%Z; SZ 1%Z; SZ 1%Z].
+Definition c04_float_case (body outs : sx) : sx :=
+  match dprog Qops body, dlist dnat outs with
+  | Some prog, Some outs =>
+      if forallb (fun o => Nat.ltb o (length prog)) outs then float_flags else bad_case
+  | _, _ => bad_case
+  end.
+
 Definition run_c04 (args : list sx) : sx :=
   match args with
   | [SZ 1%Z; SZ ty; body; outs] => with_ty ty (fun R ops => c04_case ops body outs)
+  | [SZ 2%Z; body; outs] => c04_float_case body outs
   | _ => bad_case
   end.
